@@ -83,8 +83,8 @@ pub(crate) struct TipModel<'a> {
     /// sampled path, both still below the stored tip) is in flight
     start: u8,
     base_height: u64,
-    /// thorough: also the child whose number skips one block
-    more_forgeries: bool,
+    /// the forged-child variants of this configuration's alphabet
+    variants: Vec<u8>,
     track: RefCell<Track>,
 }
 
@@ -292,7 +292,7 @@ impl<'a> Model for TipModel<'a> {
             if p == 2 && t.forgeries < 2 {
                 let proven = sim.c().peers.get_state(&PeerIndex::new(p)).and_then(|s| s.get_prove_state().cloned()).is_some();
                 if proven {
-                    for variant in if self.more_forgeries { vec![0u8, 1, 2, 3, 4, 5] } else { vec![0u8, 1, 3, 5] } {
+                    for variant in self.variants.clone() {
                         v.push(Ev::Forged(p, variant));
                     }
                 }
@@ -574,7 +574,7 @@ fn make_model<'a>(env: &'a Env, n_peers: usize, start: u8) -> TipModel<'a> {
         n_peers,
         start,
         base_height: 14,
-        more_forgeries: false,
+        variants: vec![0, 1, 2, 3, 4, 5],
         track: RefCell::new(Track::default()),
     }
 }
@@ -597,12 +597,21 @@ pub(crate) fn run(opts: &Opts, report: &mut Report) {
         return;
     }
     // (peers, start, max depth)
-    let configs: Vec<(usize, u8, usize)> = if thorough { vec![(2, 1, 5), (2, 0, 5), (2, 2, 5), (3, 1, 4), (2, 3, 4), (2, 4, 4)] } else { vec![(2, 1, 3), (2, 0, 3), (2, 2, 3), (2, 3, 3), (2, 4, 3)] };
+    // (peers, start, max depth, forged-child variants: 0..2 lie about the total difficulty, 3..5
+    // carry the true chain root under a rewritten number / epoch)
+    let td = vec![0u8, 1, 2];
+    let hdr = vec![3u8, 4, 5];
+    let mixed = vec![0u8, 1, 3, 5];
+    let configs: Vec<(usize, u8, usize, Vec<u8>)> = if thorough {
+        vec![(2, 1, 5, td.clone()), (2, 0, 5, td.clone()), (2, 2, 5, td.clone()), (3, 1, 4, td.clone()), (2, 3, 4, td.clone()), (2, 4, 4, td.clone()), (2, 1, 4, hdr.clone()), (2, 0, 4, hdr.clone()), (2, 2, 4, hdr.clone()), (2, 3, 3, hdr.clone())]
+    } else {
+        vec![(2, 1, 3, mixed.clone()), (2, 0, 3, mixed.clone()), (2, 2, 3, mixed.clone()), (2, 3, 3, mixed.clone()), (2, 4, 3, mixed.clone())]
+    };
     const SHARDS: usize = 16;
     let n_items = configs.len() * SHARDS;
     let worker = crate::verif::props::shard::run("C12", opts, report, n_items, 16, |item, report| {
         let env = Env::dummy();
-        let (n_peers, start, max_depth) = configs[item / SHARDS];
+        let (n_peers, start, max_depth, variants) = configs[item / SHARDS].clone();
         let shard = item % SHARDS;
         let mut main = Chain::new(std::sync::Arc::clone(&env.consensus), scen::wavy_plan(6));
         scen::extend_chain(&mut main, &env.scripts, 60, &[]);
@@ -616,7 +625,7 @@ pub(crate) fn run(opts: &Opts, report: &mut Report) {
             n_peers,
             start,
             base_height: 14,
-            more_forgeries: thorough,
+            variants: variants.clone(),
             track: RefCell::new(Track::default()),
         };
         let mut st0 = bfs::Stats::default();
@@ -679,7 +688,7 @@ pub(crate) fn run(opts: &Opts, report: &mut Report) {
     report.set("distinct_nontrivial", json!(s));
     report.set("traces_validated_against_impl", json!(report.get("replays")));
     report.set("rule", json!("state = event list replayed on the real client (store + peers + pending messages + world position + event budgets, fingerprinted); transitions = (state, enabled event) pairs executed; every state: invariants; every distinct state: honest continuation to convergence"));
-    report.set("bounds", json!({"depth": if thorough { "5 (2 peers), 4 (3 peers)" } else { "3" }, "budgets": "grow <= 3, forged <= 2, switch <= 2, tick <= 2, restart <= 1, duplicate <= 1", "roots": "sequences of length 2 dealt to 16 workers (a state reachable under two roots may be counted twice)"}));
+    report.set("bounds", json!({"depth": if thorough { "5 (2 peers, total-difficulty forgeries), 4 (3 peers; 2 peers with the header forgeries)" } else { "3" }, "budgets": "grow <= 3, forged <= 2, switch <= 2, tick <= 2, restart <= 1, duplicate <= 1", "roots": "sequences of length 2 dealt to 16 workers (a state reachable under two roots may be counted twice)"}));
     report.assume("dummy PoW: every re-sealed header is PoW-valid (an adversary can always mine one easy-target child)");
 }
 
@@ -700,7 +709,7 @@ pub(crate) fn debug_case() {
         n_peers: getn("C12_PEERS", 2) as usize,
         start: getn("C12_START", 0) as u8,
         base_height: 14,
-        more_forgeries: true,
+        variants: vec![0, 1, 2, 3, 4, 5],
         track: RefCell::new(Track::default()),
     };
     let evs: Vec<Ev> = std::env::var("C12_EVENTS")
